@@ -581,10 +581,11 @@ Local Open Scope N_scope.
 
 (* every Err branch of the core returns the state it was given *)
 Lemma api_error_unchanged le t o sc t' r :
+  (forall u, user_row_ok t u) ->
   his_api_op o = true -> step le t o sc = (t', r) ->
   hgrpc_of_out r <> GOk -> (forall s, r <> OAbort s) -> t' = fresh t.
 Proof.
-  intros Hop Hstep Hne Hab. destruct o as [u|signer loc b delay sig|signer loc|signer| |]; try discriminate.
+  intros Hrow Hop Hstep Hne Hab. destruct o as [u|signer loc b delay sig|signer loc|signer| |]; try discriminate.
   - (* register *)
     revert Hstep. cbn [step wrap]. unfold gk_add_update_user. change (set_rpc_log t []) with (fresh t).
     destruct (gk_get (fresh t) u) as [ui|].
@@ -594,14 +595,16 @@ Proof.
       * cbn. intros H; inversion H; subst. exfalso; eapply Hab; reflexivity.
   - (* add_appointment *)
     revert Hstep. cbn [step wrap]. unfold w_add_appointment. change (set_rpc_log t []) with (fresh t).
-    destruct (authenticate (fresh t) signer) as [u|]; [|cbn; intros H; inversion H; reflexivity].
+    destruct (authenticate (fresh t) signer) as [u|] eqn:Eau; [|cbn; intros H; inversion H; reflexivity].
+    apply authenticate_Some in Eau. destruct Eau as [_ Hmem].
     destruct (gk_get (fresh t) u) as [ui|]; [|cbn; intros H; inversion H; reflexivity].
     destruct (N.leb (u_expiry ui) (gk_height (fresh t))); [cbn; intros H; inversion H; reflexivity|].
     destruct (find_trk (db_trks (fresh t)) (loc, u)); [cbn; intros H; inversion H; reflexivity|].
     unfold gk_add_update_appointment.
     destruct (gk_get (fresh t) u) as [ui2|]; [|cbn; intros H; inversion H; reflexivity].
     match goal with |- context [if ?c then _ else _] => destruct c end.
-    + cbn [bind].
+    + cbn [bind]. cbv zeta.
+      rewrite stored_flag_true by (apply store_ok_after_charge; [exact (Hrow u Hmem)|reflexivity]).
       match goal with |- context [bind ?x _] => destruct x end;
         cbn; intros H; inversion H; subst; [cbn in Hne; congruence | exfalso; eapply Hab; reflexivity].
     + cbn. intros H; inversion H; reflexivity.
@@ -617,13 +620,14 @@ Local Open Scope Z_scope.
 (* an HTTP request answered with anything but 200 leaves the tower state as it was (the ghost RPC log,
    reset at the start of every operation of the core, aside) - provided the core does not abort *)
 Theorem non200_unchanged le t reachable rq den sc t' r :
+  (forall u, user_row_ok t u) ->
   (forall o, den = Some o -> his_api_op o = true) ->
   (forall o s, den = Some o -> snd (step le t o sc) <> OAbort s) ->
   hserve le t reachable rq den sc = (t', r) ->
   rp_status r <> 200 ->
   fresh t' = fresh t.
 Proof.
-  intros Hop Hab. unfold hserve.
+  intros Hrow Hop Hab. unfold hserve.
   destruct (hcore le t reachable den sc) as [t1 g] eqn:Ec.
   destruct (rp_forwarded (respond rq g)) eqn:Ef; intros H; inversion H; subst t' r; [|reflexivity].
   intros Hst. rewrite (forwarded_answer rq g Ef) in Hst.
@@ -632,7 +636,7 @@ Proof.
   revert Ec. unfold hcore. destruct (negb reachable); [intros E; inversion E; reflexivity|].
   destruct den as [o|]; [|intros E; inversion E; reflexivity].
   destruct (step le t o sc) as [t2 out] eqn:Es. intros E. inversion E. subst t2 g.
-  rewrite (api_error_unchanged le t o sc t1 out (Hop o eq_refl) Es Hg).
+  rewrite (api_error_unchanged le t o sc t1 out Hrow (Hop o eq_refl) Es Hg).
   - apply fresh_fresh.
   - intros s Eo. apply (Hab o s eq_refl). rewrite Es. exact Eo.
 Qed.
